@@ -991,6 +991,18 @@ def _check_discovery(cfg, world, qp, pool, ynode, inits, INc):
             ifs_ok = all(unparse(c_) == "%s in %s" % (unparse(g.target),
                                                        pool) for c_ in g.ifs)
             alt2 = src_ok and ifs_ok and unparse(it2.elt) == unparse(g.target)
+        if not (full or alt or alt2) and isinstance(it, ast.Name) and any(
+                isinstance(x, ast.Call) and isinstance(
+                    x.func, ast.Attribute) and x.func.attr == "append" and
+                unparse(x.func.value) == it.id for x in ast.walk(cfg.fn)):
+            # loop fission: the answering addresses are collected in a list
+            # by the scan and struck off the pool in a second loop - which
+            # candidates are asked is then a fact about the first loop that
+            # this rule (one loop that asks and removes) does not connect
+            raise AnalysisError(
+                "Commissioning collects the addresses in use in `%s` and "
+                "removes them from the pool in a second loop; the in-use "
+                "rule reads one loop that asks and removes" % it.id)
         if not (full or alt or alt2):
             why.append("discovery loop iterates %s, not every candidate"
                        % unparse(it))
